@@ -11,6 +11,7 @@ from string import ascii_letters
 
 
 _MISSING = object()
+STANDARD_KEY_LAYOUTS = (('mod', 'form', 'fin'), ('case', 'mod', 'fin'))
 
 
 def feat_model(f):
@@ -21,7 +22,9 @@ def feat_model(f):
         return None
     items = getattr(f, 'items', None)
     if callable(items):
-        return tuple((str(k), str(v)) for k, v in items())
+        kv = tuple((str(k), str(v)) for k, v in items())
+        if kv:                      # (a unary feature may offer the same interface and have no pairs)
+            return kv
     v = getattr(f, 'value', _MISSING)
     if v is _MISSING:
         v = str(f)
@@ -43,9 +46,9 @@ def to_cat(m):
         return Functor(to_cat(m[1]), m[2], to_cat(m[3]))
     f = m[2]
     if isinstance(f, tuple):
-        if len({k for k, _ in f}) < len(f):
-            # a repeated attribute key: kept in the generators because today's classes accept it, but nothing
-            # promises that such a value can be built
+        if tuple(k for k, _ in f) not in STANDARD_KEY_LAYOUTS:
+            # a repeated attribute key or the attributes in another order: kept in the generators because today's
+            # classes accept it, but nothing promises that such a value can be built
             try:
                 return Atom(m[1], TernaryFeature(*[tuple(kv) for kv in f]))
             except Exception as ex:
